@@ -189,6 +189,10 @@ def _class_member(repo, obj, name):
             if isinstance(st, ast.FunctionDef) and st.name == name:
                 if any(isinstance(d, ast.Name) and d.id == "property" for d in st.decorator_list):
                     return run_function(repo, FuncRef(m, st, "%s.%s.%s" % (m.name, c.name, name)), [obj])
+                if any(isinstance(d, ast.Name) and d.id == "staticmethod" for d in st.decorator_list):
+                    return FuncRef(m, st, "%s.%s.%s" % (m.name, c.name, name))
+                if any(isinstance(d, ast.Name) and d.id == "classmethod" for d in st.decorator_list):
+                    raise Unknown("classmethod %s" % name)
                 b = Bound(obj, st)
                 b.module = m
                 return b
@@ -786,7 +790,8 @@ class _Interp(object):
                         return lambda *a, **k: self.call_value(v, list(a), k)
                     return v
                 try:
-                    r = getattr(builtins, f.id)(*[_py(a) for a in args], **{k: _py(v) for k, v in kwargs.items()})
+                    # only where the builtin CALLS the value (key=...); containers keep the interpreter's own values
+                    r = getattr(builtins, f.id)(*args, **{k: (_py(v) if k == "key" else v) for k, v in kwargs.items()})
                 except Unknown:
                     raise
                 except Exception as e:
@@ -938,6 +943,13 @@ def _call_value(self, v, args, kwargs):
         except Exception as e:
             raise Raised(type(e).__name__, v.qualname)
         return list(r) if v.qualname.startswith("itertools.") else r
+    ov = getattr(self.repo, "overrides", None)
+    if ov and isinstance(v, FuncRef) and v.qualname in ov:
+        # a rule replaced this callee by its reference model / a recorder (also when it arrives as a value)
+        return ov[v.qualname].fn(*args, **kwargs)
+    if isinstance(v, FuncRef) and isinstance(v.node, ast.ClassDef):
+        # a class handed around as a value and called: node_class()
+        return instantiate(self.repo, v.module, v.node, args, kwargs, self.depth)
     if isinstance(v, FuncRef):
         return run_function(self.repo, v, args, kwargs, self.depth + 1)
     if isinstance(v, Native):
